@@ -153,6 +153,8 @@ def check(case, rec):
         return check_bytes(case, rec)
     if 'atheris_campaign' in case:
         return
+    if case.get('large'):
+        return check_large(case, rec)
     _limit_memory()
     fs0 = case['fs']
     fault = case['fault']
@@ -620,13 +622,98 @@ def cases(draw):
     return case
 
 
+@st.composite
+def large_cases(draw):
+    """files whose chunks are larger than typical I/O buffer / mapping thresholds (64 KiB ... 2 MiB)"""
+    return {'large': True, 'kib': draw(st.sampled_from([63, 64, 65, 256, 1023, 1024, 1025, 1536, 2049])),
+            'type': draw(st.sampled_from(['f64', 'i16', 'u8', 'i32'])), 'chunks': draw(st.integers(1, 2)),
+            'interleaved': draw(st.booleans()), 'with_index': draw(st.booleans()), 'memmap': draw(st.integers(0, 3)) == 0}
+
+
+def check_large(case, rec):
+    """big chunks, opened by path: after integer indexing, windows and a held streamed chunk, close() leaves nothing open"""
+    from nptdms import TdmsFile
+    from vf.model import tsize
+    _limit_memory()
+    t = case['type']
+    n = case['kib'] * 1024 // tsize(t)
+    p, q = make_path('g', 'big'), make_path('g', 'small')
+    vals = ((np.arange(n, dtype=np.int64) * 31) % 251).astype({'f64': '<f8', 'i16': '<i2', 'u8': '<u1', 'i32': '<i4'}[t])
+    active = [[p, t, n]] + ([[q, t, n]] if case['interleaved'] else [[q, 'i16', 2]])
+    data_map = {p: [vals.tobytes()] * case['chunks'],
+                q: [vals[::-1].tobytes()] * case['chunks'] if case['interleaved'] else [b'\x01\x00\x02\x00'] * case['chunks']}
+    seg = {'be': False, 'interleaved': case['interleaved'],
+           'entries': [{'path': a[0], 'hdr': 'full', 'type': a[1], 'n': a[2]} for a in active],
+           'active': active, 'nchunks': case['chunks'], 'data': data_map}
+    data, index, _l = encode_file({'segments': [seg]}, with_index=True)
+    rec.nontrivial(True)
+    rec.label('large_chunks', 'chunk_kib=%d' % case['kib'], 'interleaved' if case['interleaved'] else 'contiguous')
+    gc_was = gc.isenabled()
+    gc.disable()
+    try:
+        with scratch_dir() as d:
+            acct = Acct(rec, d)
+            path = os.path.join(d, 'big.tdms')
+            with open(path, 'wb') as f:
+                f.write(data)
+            if case['with_index']:
+                with open(path + '_index', 'wb') as f:
+                    f.write(index)
+            mm = d if case['memmap'] else None
+            before = open_fds(d)
+            held = []
+            try:
+                tf = TdmsFile.open(path, memmap_dir=mm)
+                ch = tf['g']['big']
+                held.append(ch[0])
+                held.append(ch[n - 1])
+                held.append(ch.read_data(1, 3))
+                it = ch.data_chunks()
+                held.append(next(it)[:])
+                held.append(next(tf.data_chunks())['g']['big'][:])
+                first = int(held[0]), int(held[1])
+                tf.close()
+            except Exception as e:      # noqa
+                rec.violation('large:raised', describe_exc(e), key=exc_key(e))
+                return
+            # (memmap_dir keeps its own temporary files open while the arrays live: documented, and not the files named here)
+            left = {fd: tgt for fd, tgt in open_fds(d).items()
+                    if fd not in before and tgt.split(' (deleted)')[0].endswith(('.tdms', '.tdms_index'))}
+            if left:
+                rec.violation('fd_leak:close_large', 'TdmsFile.open(path) of a file with %d KiB chunks, integer index, window, two '
+                              'held chunks, close(): descriptors left open: %r' % (case['kib'], sorted(left.values())))
+            if first != (int(vals[0]), int(vals[n - 1])):
+                rec.violation('large:values', 'first / last value %r, expected %r' % (first, (int(vals[0]), int(vals[n - 1]))))
+            # eager read and read_metadata of the same file: nothing stays open either (results still referenced)
+            for api in ('read', 'read_metadata'):
+                before = open_fds(d)
+                try:
+                    keep = getattr(TdmsFile, api)(path, **({'memmap_dir': mm} if api == 'read' else {}))
+                    if api == 'read':
+                        held.append(keep['g']['big'][:])
+                except Exception as e:      # noqa
+                    rec.violation('large:raised', describe_exc(e), key=exc_key(e))
+                    continue
+                now = {fd: tgt for fd, tgt in open_fds(d).items()
+                       if fd not in before and tgt.split(' (deleted)')[0].endswith(('.tdms', '.tdms_index'))}
+                if now:
+                    rec.violation('fd_leak:%s_large' % api, '%s(path): descriptors left open: %r' % (api, sorted(now.values())))
+            del held
+    finally:
+        if gc_was:
+            gc.enable()
+        gc.collect()
+
+
 def jobs(tier):
     if tier == 'quick':
         return [Job('fault_cases', 'hyp', cases, n=2000),
+                Job('large_chunks', 'hyp', large_cases, n=48, check=check_large),
                 Job('mutated_bytes', 'hyp', byte_cases, n=800, check=check_bytes),
                 Job('atheris_seeded', 'custom', _atheris_job(400, True), shards=4,
                     note='libFuzzer campaign, 4 x 400 runs from 8 valid seed files')]
     return [Job('fault_cases', 'hyp', cases, n=60000),
+            Job('large_chunks', 'hyp', large_cases, n=600, check=check_large),
             Job('mutated_bytes', 'hyp', byte_cases, n=30000, check=check_bytes),
             Job('atheris_seeded', 'custom', _atheris_job(12500, True), shards=12,
                 note='libFuzzer campaign, 12 x 12500 runs from 8 valid seed files'),
